@@ -49,6 +49,15 @@ Example slice_size_ceil : slice_size [0; 5; 2] 10 = Some 3 /\ slice_size [2; 100
   /\ slice_size [10; 12; 1] 10 = Some 0 /\ slice_size [0; 5; 0] 10 = None.
 Proof. vm_compute. repeat split. Qed.
 
+(** The open-ended idiom stop = MaxInt64 is inside the hypotheses of the theorems
+    and selects to the end of the axis; a step beyond MaxInt64 - extent is outside
+    them: there the Go expression extent + step - 1 wraps (and so does the model). *)
+Example slice_size_extremes :
+  ss_ok 0 9223372036854775807 2 10 /\ slice_size [0; 9223372036854775807; 2] 10 = Some 5
+  /\ slice_size [1; 9223372036854775806; 3] 10 = Some 3
+  /\ slice_size [0; 7; 9223372036854775807] 10 = Some 0.
+Proof. unfold ss_ok. repeat split; try lia; vm_compute; reflexivity. Qed.
+
 (** ** Go int / uint do NOT round-trip (known finding native-int-width)
 
     The binding creates the dataset with H5T_NATIVE_INT (4 bytes) and moves
@@ -96,7 +105,7 @@ Proof.
       intros x E. vm_compute in E. inversion E; subst. unfold block_fits. simpl. repeat constructor; lia. }
   split.
   { split; [exact nm_ga_plain|]. intros x l E1 E2 _. vm_compute in E1. inversion E1; subst. inversion E2; subst.
-    simpl. repeat constructor; unfold u64; lia. }
+    simpl. repeat constructor; unfold ss_ok; lia. }
   split; [split; [exact nm_ga_plain | split; [discriminate | unfold u64; repeat constructor; lia]]|].
   split; [exact nm_ga_plain | exact I].
 Qed.
